@@ -377,7 +377,11 @@ func ParseTemplateSource(src []byte, format ast.Format, imported, noParseShow bo
 			}
 			numTokenInLine++
 			var expr ast.Expression
+			// The statements of a function literal in the shown expression do
+			// not make the line of the show a line without content.
+			cutSpacesToken := p.cutSpacesToken
 			expr, tok = p.parseExpr(p.next(), false, false, false, false)
+			p.cutSpacesToken = cutSpacesToken
 			if expr == nil {
 				return nil, nil, syntaxError(tok.pos, "unexpected %s, expecting expression", tok)
 			}
@@ -978,7 +982,11 @@ LABEL:
 		tok := p.next()
 		ctx := tok.ctx
 		var exprs []ast.Expression
+		// The statements of a function literal in the shown expressions do
+		// not make the line of the show statement a line without content.
+		cutSpacesToken := p.cutSpacesToken
 		exprs, tok = p.parseExprList(tok, false, false, false)
+		p.cutSpacesToken = cutSpacesToken
 		if exprs == nil {
 			panic(syntaxError(tok.pos, "unexpected %s, expecting expression", tok))
 		}
